@@ -2205,6 +2205,11 @@ def validate_meta(
     # Bazel ensures the cache is valid.
     mtime = 0 if bazel else int(st.st_mtime)
     if not bazel and (mtime != meta.mtime or path != meta.path):
+        if path.endswith(".pyi") != meta.path.endswith(".pyi"):
+            # The same text is checked differently as a stub (e.g. function bodies),
+            # so an equal hash does not make the record valid.
+            manager.log(f"Metadata abandoned for {id}: file {path} replaces {meta.path}")
+            return None
         if manager.quickstart_state and path in manager.quickstart_state:
             # If the mtime and the size of the file recorded in the quickstart dump matches
             # what we see on disk, we know (assume) that the hash matches the quickstart
